@@ -13,7 +13,8 @@ Inductive case :=
 | CJson (a : attrs) (text : str) (impl : result attrs)   (* _jsonify's text and what _unjsonify makes of it *)
 | CJsonText (text : str) (impl : result attrs)          (* _unjsonify on arbitrary / damaged text; Err = raised or not str->[str] *)
 | CMergeA (numeric : bool) (a1 a2 : attrs) (impl : result attrs) (args_unchanged : bool)
-| CEq (f g : fdesc) (eq streq hasheq : bool).
+| CEq (f g : fdesc) (eq streq hasheq : bool)
+      (edit_ok : bool).       (* two equal copies edited in place alike still compare, print and hash alike (one hashed before the edits) *)
 
 Definition pyval_eqb (a b : pyval) : bool :=
   match a, b with
@@ -83,7 +84,7 @@ Definition verdict (c : case) : Z :=
         | _, _ => V_BAD
         end
       else V_OUT
-  | CEq f g eq streq hasheq =>
+  | CEq f g eq streq hasheq edit_ok =>
       let m := feature_eq to_quote (feat_of f) (feat_of g) in
-      if Bool.eqb eq streq && Bool.eqb eq m && (if eq then hasheq else true) then V_OK else V_BAD
+      if Bool.eqb eq streq && Bool.eqb eq m && (if eq then hasheq else true) && edit_ok then V_OK else V_BAD
   end.
